@@ -100,6 +100,7 @@ MaySucceed(N, A) ==
           /\ ReassignPre(N, A, E.args.p, E.args.r, SegS, SegE)
           /\ SegPre(N, TourOfV(A, E.args.p), IsDummy(A, E.args.p), SegS, SegE)
           /\ TypeCompat(N, A, E.args.p, E.args.r, Moved(A, E.args.p, SegS, SegE))
+          /\ TakeoverOK(N, A, E.args.p, E.args.r, SegS)
           /\ (IsReal(A, E.args.r) /\ IsDummy(A, E.args.p)) =>
                 \A n \in ActSet(N, Moved(A, E.args.p, SegS, SegE)) \ ActSet(N, A.tours[E.args.r]) : ~FormFull(N, A, n)
     [] E.op = "fit_reassign" -> FitPre(N, A, E.args.p, E.args.r, SegS, SegE)
